@@ -11,7 +11,7 @@ Errors: `must_err` (VTL requires a runtime error) and `may_err` (an error is acc
 """
 import z3
 
-from vt.sqlsmt.sym import (FALSE, NULL, SV, TRUE, Row, Table, Unsupported, as_kind, ite, lex_less, lit, same, unify,
+from vt.sqlsmt.sym import (keep_dc, FALSE, NULL, SV, TRUE, Row, Table, Unsupported, as_kind, ite, lex_less, lit, same, unify,
                            KIND_OF_TYPE, is_true)
 
 NUMERIC = ("Integer", "Number")
@@ -127,6 +127,14 @@ class Ref:
 
     # ------------------------------------------------------------------ scalar semantics
     def s_binop(self, op, a, b, guard):
+        v, t = self._s_binop(op, a, b, guard)
+        return keep_dc(v, a[0], b[0]), t
+
+    def s_unop(self, op, a, guard):
+        v, t = self._s_unop(op, a, guard)
+        return (keep_dc(v, a[0]) if v is not a[0] else v), t
+
+    def _s_binop(self, op, a, b, guard):
         """(SV, type) x (SV, type) -> (SV, type); guard = the datapoint exists (for error conditions)"""
         (av, at), (bv, bt) = a, b
         if op in ARITH:
@@ -206,7 +214,7 @@ class Ref:
             raise Unsupported("oracle: boolean to string")
         raise Unsupported("oracle: %s to string" % v.kind)
 
-    def s_unop(self, op, a, guard):
+    def _s_unop(self, op, a, guard):
         av, at = a
         if op == "isnull":
             return SV("bool", FALSE, av.null), "Boolean"
@@ -365,6 +373,14 @@ class Ref:
         return self.s_binop(op, l, r, g)
 
     def membership(self, node):
+        if self.row is not None:
+            rds, row = self.row
+            q = "%s#%s" % (node.left.value, node.right.value)
+            if q in row.cols:
+                return (row.cols[q], rds.comp(q)[1])
+            if node.right.value in row.cols:
+                return (row.cols[node.right.value], rds.comp(node.right.value)[1])
+            raise Unsupported("oracle: membership %s inside clause" % q)
         ds = self.ev(node.left)
         cname = node.right.value
         if self.row is not None and not isinstance(ds, RDS):
@@ -641,7 +657,9 @@ class Ref:
         none = z3.Not(z3.Or(*[m for m, _ in nn])) if nn else TRUE
         k = KIND_OF_TYPE[ty]
         if op == "count":
-            return SV("int", FALSE, cnt), "Integer"
+            # number of non-null values; an empty count (NULL by the engine's documented convention, 0 elsewhere) is
+            # not fixed by the statement: value is don't-care there, the datapoint itself must still exist
+            return SV("int", FALSE, cnt, dc=(cnt == 0)), "Integer"
         if op == "sum":
             zero = z3.IntVal(0) if k == "int" else z3.RealVal(0)
             return SV(k, none, z3.Sum([z3.If(m, v.val, zero) for m, v in nn])), ty
@@ -676,16 +694,9 @@ class Ref:
                 z3.Or(*[z3.And(m, v == hi) for m, v in rv]), below(hi) <= ku, ku < atmost(hi))))
             return SV("real", none, (lo + hi) / 2), "Number"
         if op in ("var_pop", "var_samp", "stddev_pop", "stddev_samp"):
-            rv = [(m, z3.ToReal(v.val) if k == "int" else v.val) for m, v in nn]
-            n = z3.ToReal(z3.If(cnt == 0, 1, cnt))
-            mean = z3.Sum([z3.If(m, v, z3.RealVal(0)) for m, v in rv]) / n
-            ss = z3.Sum([z3.If(m, (v - mean) * (v - mean), z3.RealVal(0)) for m, v in rv])
-            samp = op.endswith("samp")
-            var = ss / (z3.ToReal(z3.If(cnt <= 1, 1, cnt - 1)) if samp else n)
-            nl = z3.Or(none, cnt <= 1) if samp else none
-            if op.startswith("var"):
-                return SV("real", nl, var), "Number"
-            return SV("real", nl, self.ctx.uf("sqrt", z3.RealSort(), z3.RealSort())(var)), "Number"
+            from vt.sqlsmt.sqleval import variance_symbol
+            v = variance_symbol(self.ctx, op, [(m, z3.ToReal(v.val) if k == "int" else v.val) for m, v in nn], cnt, none)
+            return v, "Number"
         raise Unsupported("oracle aggregate %s" % op)
 
     def group_rows(self, ds, gids):
@@ -704,8 +715,13 @@ class Ref:
             # component-level aggregate inside aggr / having
             ds, members = self.group
             if node.operand is None:
+                # count(): number of datapoints of the group; whether datapoints with null measures count is not fixed by
+                # the statement -> don't-care as soon as a member has a null measure
                 vals = [(m, SV("int", FALSE, z3.IntVal(1))) for m in members]
-                return self.agg_value("count", vals, "Integer")
+                v, t_ = self.agg_value("count", vals, "Integer")
+                anynull = z3.Or(*[z3.And(m, z3.Or(*[r.cols[x].null for x in ds.measures()])) for m, r in zip(members, ds.rows)]) if ds.measures() else FALSE
+                v.dc = z3.Or(v.dc, anynull)
+                return v, t_
             vals = []
             ty = None
             for m, r in zip(members, ds.rows):
@@ -738,8 +754,10 @@ class Ref:
                 # dataset-level count: datapoints whose measures are all non-null
                 full = [z3.And(m, *[z3.Not(r.cols[x].null) for x in meas]) for m, r in zip(members, ds.rows)]
                 c = z3.Sum([z3.If(m, 1, 0) for m in full])
-                cols["int_var"] = SV("int", FALSE, c)
-                self.count_zero_region(first, c, bool(gids))
+                # datapoints with some-but-not-all null measures: not fixed by the statement -> don't care
+                partial = z3.Or(*[z3.And(m, z3.Or(*[r.cols[x].null for x in meas]), z3.Not(z3.And(*[r.cols[x].null for x in meas])))
+                                  for m, r in zip(members, ds.rows)]) if len(meas) > 1 else FALSE
+                cols["int_var"] = SV("int", FALSE, c, dc=z3.Or(c == 0, partial))
                 out_meas = [("int_var", "Integer", "Measure")]
             else:
                 out_meas = []
@@ -756,7 +774,12 @@ class Ref:
                 finally:
                     self.group = saved
                 pres = z3.And(pres, is_true(as_kind(hv[0], "bool")))
+                if hv[0].dc is not None:
+                    self.domain.append(z3.Implies(first, z3.Not(hv[0].dc)))
             rows.append(Row(pres, cols, rep.ord))
+        if not gids:
+            # ungrouped aggregate of an EMPTY operand (one datapoint or none) is not fixed by the statement
+            self.domain.append(z3.Or(*[r.present for r in ds.rows]))
         comps = [ds.comp(g) for g in gids] + out_meas
         return RDS(comps, rows)
 
@@ -784,6 +807,9 @@ class Ref:
             if type(ch).__name__ == "UnaryOp":
                 role = {"measure": "Measure", "attribute": "Attribute", "viral attribute": "Viral Attribute", "identifier": "Identifier"}[ch.op]
                 a = ch.operand
+            r_ = getattr(a.left, "role", None)
+            if r_ is not None:
+                role = {"MEASURE": "Measure", "ATTRIBUTE": "Attribute", "VIRAL_ATTRIBUTE": "Viral Attribute", "IDENTIFIER": "Identifier"}[r_.name]
             items.append((a.left.value, role, a.right))
             gnode = a.right
         gids = self.grouping_ids(ds, gnode)
@@ -807,6 +833,8 @@ class Ref:
                         hc = aggnode.having_clause
                         hv = self.ev(hc.params if not isinstance(hc.params, list) else hc.params[0])
                         pres = z3.And(pres, is_true(as_kind(hv[0], "bool")))
+                        if hv[0].dc is not None:
+                            self.domain.append(z3.Implies(first, z3.Not(hv[0].dc)))
                 finally:
                     self.group = saved
                 cols[name] = v
@@ -814,6 +842,8 @@ class Ref:
                     comps.append((name, ty, role))
             first_round = False
             rows.append(Row(pres, cols, rep.ord))
+        if not gids:
+            self.domain.append(z3.Or(*[r.present for r in ds.rows]))
         return RDS(comps, rows)
 
     # ------------------------------------------------------------------ joins
